@@ -26,7 +26,7 @@ import json, math, os, subprocess, tempfile, concurrent.futures
 from harness.drive import f2b, b2f
 
 ID = "C11"
-THEOREM_MODULES = ["JF.Props.C11", "JF.Props.SystemLinks", "JF.Props.SystemInv"]
+THEOREM_MODULES = ["JF.Props.C11", "JF.Props.SystemLinks", "JF.Props.SystemInv", "JF.Props.SystemInv3Occ"]
 NEEDS_GEN = True
 COMPONENTS = ["occ"]
 ASSUMPTIONS = [
